@@ -2,7 +2,10 @@
 //   - evaluates verifyAggregateCommit on the TLC-generated table of [height, signer set, kind] (+ bitmap tampers),
 //   - feeds single commits through singleCommitValidator and checks pool admission,
 //   - lets sets of validators certify (Certify + gossiped commits) and requires the node's own GetAggregateCommit to
-//     pass the node's own verification.
+//     pass the node's own verification; the same with a different certifier set at every height of the window,
+//   - releases concurrent deliveries of the same and of different commits together with Certify and requires the same.
+// Scripts of spec/Certificate.tla's CertSpec carry steps of their own ("commits": a hand-encoded gossip message of several
+// single commits, "certify", "tick", "assemble"): the pool then lives through blocks that are added, removed and replaced.
 // usage: c06 <dumps.ndjson> <config.json> <out.json>
 package main
 
@@ -12,15 +15,33 @@ import (
 	"encoding/json"
 	"fmt"
 	"os"
+	"sort"
+	"strconv"
 	"sync"
+	"time"
 
 	"github.com/LiskHQ/lisk-engine/pkg/blockchain"
+	"github.com/LiskHQ/lisk-engine/pkg/codec"
 	"github.com/LiskHQ/lisk-engine/pkg/consensus"
 	"github.com/LiskHQ/lisk-engine/pkg/consensus/certificate"
+	"github.com/LiskHQ/lisk-engine/pkg/crypto"
 
 	"verifharness/internal/node"
 	"verifharness/internal/tj"
 )
+
+type CRow struct {
+	V        int    `json:"v"`
+	Signer   int    `json:"signer"`
+	H        uint32 `json:"h"`
+	Bh       uint32 `json:"bh"`
+	Ref      string `json:"ref"`
+	Sig      string `json:"sig"`
+	Len      string `json:"len"`
+	Dev      string `json:"dev"`
+	MayEnter bool   `json:"mayEnter"`
+	Hot      bool   `json:"hot"`
+}
 
 type Step struct {
 	node.Cand
@@ -28,18 +49,32 @@ type Step struct {
 	Accepted bool   `json:"accepted"`
 	SaveTemp bool   `json:"saveTemp"`
 	Ok       bool   `json:"ok"`
+	// steps of a history (CertSpec)
+	Commits    []CRow   `json:"commits,omitempty"`
+	Certifiers []int    `json:"certifiers,omitempty"`
+	Gossip     bool     `json:"gossip,omitempty"`
+	Stale      []uint32 `json:"stale,omitempty"`
 }
 
 type VRow struct {
 	H       uint32 `json:"h"`
 	Signers []int  `json:"signers"`
 	Kind    string `json:"kind"`
+	Ss      bool   `json:"ss"` // the signer set alone would do (validators of the height reaching its threshold)
 	Expect  bool   `json:"expect"`
 }
 type PRow struct {
 	Regossip   *bool  `json:"regossip,omitempty"` // replay: force / forbid the gossip tick + second certification
 	Certifiers []int  `json:"certifiers"`
 	Height     uint32 `json:"height"`
+}
+type MSet struct {
+	H          uint32 `json:"h"`
+	Certifiers []int  `json:"certifiers"`
+}
+type MRow struct {
+	Sets   []MSet `json:"sets"`
+	Height uint32 `json:"height"`
 }
 type SRow struct {
 	V        int    `json:"v"`
@@ -52,7 +87,10 @@ type Dump struct {
 	Script  []Step `json:"script"`
 	Verify  []VRow `json:"verify"`
 	Pool    []PRow `json:"pool"`
+	MPool   []MRow `json:"mpool"`
 	Singles []SRow `json:"singles"`
+	Hist    bool   `json:"hist"`
+	Conc    int    `json:"conc"` // rounds of concurrent deliveries on the final state
 	State   struct {
 		Tip, Cert, Mhpc, NextParams uint32
 	} `json:"state"`
@@ -64,23 +102,30 @@ type Violation struct {
 	Replay interface{} `json:"replay"`
 }
 type Out struct {
-	Dumps        int         `json:"states"`
-	VerifyRows   int         `json:"verify_rows"`
-	VerifyTrue   int         `json:"verify_rows_accepted"`
-	BitTampers   int         `json:"bitmap_tampers_rejected"`
-	Singles      int         `json:"single_commits_fed"`
-	SinglesIn    int         `json:"single_commits_admitted"`
-	PoolCases    int         `json:"pool_cases"`
-	PoolNonEmpty int         `json:"own_aggregates_nonempty"`
-	Errors       []string    `json:"harness_errors"`
-	Violations   []Violation `json:"violations"`
+	Dumps        int            `json:"states"`
+	VerifyRows   int            `json:"verify_rows"`
+	VerifyTrue   int            `json:"verify_rows_accepted"`
+	BitTampers   int            `json:"bitmap_tampers_rejected"`
+	Singles      int            `json:"single_commits_fed"`
+	SinglesIn    int            `json:"single_commits_admitted"`
+	PoolCases    int            `json:"pool_cases"`
+	PoolNonEmpty int            `json:"own_aggregates_nonempty"`
+	Counts       map[string]int `json:"counts"` // per-class coverage (rows per kind / rejection class / tamper, history steps, ...)
+	Errors       []string       `json:"harness_errors"`
+	Violations   []Violation    `json:"violations"`
+	// violations of the sub-check that is still behind VERIF_EXPERIMENTAL=1 (reported as violations only with it)
+	Experimental []Violation `json:"experimental"`
 }
 
 var (
-	out    = &Out{}
-	mu     sync.Mutex
-	perKey = map[string]int{}
+	out          = &Out{Counts: map[string]int{}}
+	mu           sync.Mutex
+	perKey       = map[string]int{}
+	experimental = os.Getenv("VERIF_EXPERIMENTAL") == "1"
+	seed         = int64(1)
 )
+
+const staleKey = "stale-commit-of-replaced-block"
 
 func viol(key, what string, replay interface{}) {
 	mu.Lock()
@@ -89,6 +134,33 @@ func viol(key, what string, replay interface{}) {
 	if perKey[key] <= 2 {
 		out.Violations = append(out.Violations, Violation{key, what, replay})
 	}
+}
+
+// violExp: a violation of the sub-check behind VERIF_EXPERIMENTAL (the pool keeps commits for blocks that were replaced)
+func violExp(key, what string, replay interface{}) {
+	if experimental {
+		viol(key, what, replay)
+		return
+	}
+	mu.Lock()
+	defer mu.Unlock()
+	perKey["exp:"+key]++
+	out.Counts["experimental:"+key]++
+	if perKey["exp:"+key] <= 2 {
+		out.Experimental = append(out.Experimental, Violation{key, what, replay})
+	}
+}
+
+func count(k string, d int) {
+	mu.Lock()
+	out.Counts[k] += d
+	mu.Unlock()
+}
+
+func herr(format string, a ...interface{}) {
+	mu.Lock()
+	out.Errors = append(out.Errors, fmt.Sprintf(format, a...))
+	mu.Unlock()
 }
 
 func verifyAC(n *node.Node, ac *blockchain.AggregateCommit) (ok bool, pv interface{}) {
@@ -100,43 +172,508 @@ func verifyAC(n *node.Node, ac *blockchain.AggregateCommit) (ok bool, pv interfa
 	return n.Ex.VerifVerifyAggregateCommit(ac) == nil, nil
 }
 
+// ---------------------------------------------------------------------------------------------- aggregate commits
+
+// builder makes real BLS aggregate commits for the rows of the verdict table; single signatures are cached per
+// (height, kind, signer): the table asks for every signer subset.
+type builder struct {
+	n    *node.Node
+	sigs map[string][]byte
+	keys map[uint32][][]byte
+}
+
+func newBuilder(n *node.Node) *builder { return &builder{n: n, sigs: map[string][]byte{}, keys: map[uint32][][]byte{}} }
+
+func fakeHeader(h uint32, ts uint32) *blockchain.BlockHeader {
+	hdr := &blockchain.BlockHeader{Height: h, Timestamp: ts, StateRoot: make([]byte, 32), ValidatorsHash: make([]byte, 32),
+		PreviousBlockID: make([]byte, 32), GeneratorAddress: make([]byte, 20), AggregateCommit: &blockchain.AggregateCommit{}}
+	hdr.Init()
+	return hdr
+}
+
+// keyList: validator keys of the parameter set at height h, ascending by BLS key (the order verification uses)
+func (b *builder) keyList(h uint32) [][]byte {
+	if k, ok := b.keys[h]; ok {
+		return k
+	}
+	keys := [][]byte{}
+	for i, w := range b.n.ParamsAt(h).W {
+		if w > 0 {
+			keys = append(keys, node.Validator(i+1).BLS.PublicKey)
+		}
+	}
+	sort.Slice(keys, func(i, j int) bool { return bytes.Compare(keys[i], keys[j]) < 0 })
+	b.keys[h] = keys
+	return keys
+}
+
+func (b *builder) sig(h uint32, kind string, signer int) []byte {
+	k := fmt.Sprintf("%d/%s/%d", h, kind, signer)
+	if s, ok := b.sigs[k]; ok {
+		return s
+	}
+	hdr, err := b.n.Chain.DataAccess().GetBlockHeaderByHeight(h)
+	if err != nil || kind == "wrongblock" {
+		hdr = fakeHeader(h, 12345) // certificate of a block that is not the node's block at that height
+	}
+	cert := certificate.NewCertificateFromBlock(hdr)
+	switch kind {
+	case "wrong-vhash":
+		cert.ValidatorsHash = crypto.Hash(append([]byte("other validators"), cert.ValidatorsHash...))
+	case "wrong-stateroot":
+		cert.StateRoot = crypto.Hash(append([]byte("other state"), cert.StateRoot...))
+	case "wrong-timestamp":
+		cert.Timestamp++
+	}
+	chainID := b.n.ChainID
+	if kind == "badsig" {
+		chainID = []byte{9, 9, 9, 9}
+	}
+	cert.Sign(chainID, node.Validator(signer).BLS.PrivateKey)
+	b.sigs[k] = cert.Signature
+	return cert.Signature
+}
+
+func (b *builder) build(h uint32, kind string, signers []int) *blockchain.AggregateCommit {
+	if kind == "empty" {
+		return &blockchain.AggregateCommit{Height: h, AggregationBits: []byte{}, CertificateSignature: []byte{}}
+	}
+	base := kind
+	if kind == "halfempty-nosig" || kind == "halfempty-nobits" {
+		base = "valid"
+	}
+	pairs := []*crypto.BLSPublicKeySignaturePair{}
+	for _, s := range signers {
+		pairs = append(pairs, &crypto.BLSPublicKeySignaturePair{PublicKey: node.Validator(s).BLS.PublicKey, Signature: b.sig(h, base, s)})
+	}
+	if len(pairs) == 0 {
+		return &blockchain.AggregateCommit{Height: h, AggregationBits: []byte{1}, CertificateSignature: []byte{}}
+	}
+	bits, sig := crypto.BLSCreateAggSig(b.keyList(h), pairs)
+	ac := &blockchain.AggregateCommit{Height: h, AggregationBits: bits, CertificateSignature: sig}
+	switch kind {
+	case "halfempty-nosig":
+		ac.CertificateSignature = []byte{}
+	case "halfempty-nobits":
+		ac.AggregationBits = []byte{}
+	}
+	return ac
+}
+
+// ownAggregate: what the node itself assembles from the single commits of these signers for its block at height h
+// (the last lines of GetAggregateCommit)
+func ownAggregate(n *node.Node, h uint32, signers []int) (ac *blockchain.AggregateCommit, err error) {
+	defer func() {
+		if e := recover(); e != nil {
+			err = fmt.Errorf("panic: %v", e)
+		}
+	}()
+	hdr, err := n.Chain.DataAccess().GetBlockHeaderByHeight(h)
+	if err != nil {
+		return nil, err
+	}
+	params, err := n.Ex.GetBFTParameters(n.Ex.VerifConsensusStore(), h)
+	if err != nil {
+		return nil, err
+	}
+	keypairs := make(certificate.AddressKeyPairs, len(params.Validators()))
+	for i, v := range params.Validators() {
+		keypairs[i] = &certificate.AddressKeyPair{Address: v.Address(), BLSKey: v.BLSKey()}
+	}
+	commits := certificate.SingleCommits{}
+	for _, s := range signers {
+		v := node.Validator(s)
+		commits = append(commits, certificate.NewSingleCommit(hdr, v.Address, n.ChainID, v.BLS.PrivateKey))
+	}
+	return commits.Aggregate(keypairs)
+}
+
+// soundRejected decides what the rejection of an aggregate commit that the harness built as sound means: when the node
+// accepts the aggregate it assembles ITSELF from the same signers' commits, only the harness's way of laying out bits and
+// keys no longer matches the node's (harness error: inconclusive); otherwise the node rejects what it would assemble.
+func soundRejected(n *node.Node, h uint32, signers []int) bool {
+	own, err := ownAggregate(n, h, signers)
+	if err == nil && own != nil {
+		if ok, _ := verifyAC(n, own); ok {
+			herr("the node rejects the harness-built aggregate commit (height %d, signers %v) but accepts the one it assembles itself from the same commits: the harness's layout of aggregate commits no longer matches the node's", h, signers)
+			return false
+		}
+	}
+	return true
+}
+
+// ---------------------------------------------------------------------------------------------- the pool
+
+type pent struct {
+	h             uint32
+	id, addr, sig []byte
+}
+
+func poolEntries(n *node.Node, from, to uint32) []pent {
+	res := []pent{}
+	for h := from; h <= to; h++ {
+		for _, sc := range n.Ex.VerifPool().Get(h) {
+			res = append(res, pent{h, append([]byte{}, sc.BlockID()...), append([]byte{}, sc.ValidatorAddress()...), append([]byte{}, sc.CertificateSignature()...)})
+		}
+	}
+	return res
+}
+
+func ownID(n *node.Node, h uint32) []byte {
+	hdr, err := n.Chain.DataAccess().GetBlockHeaderByHeight(h)
+	if err != nil {
+		return nil
+	}
+	return hdr.ID
+}
+
+type rawCommit []byte
+
+func (r rawCommit) Encode() []byte { return r }
+
+func encodeCommit(id []byte, h uint32, addr, sig []byte) rawCommit {
+	w := codec.NewWriter()
+	w.WriteBytes(1, id)
+	w.WriteUInt32(2, h)
+	w.WriteBytes(3, addr)
+	w.WriteBytes(4, sig)
+	return rawCommit(w.Result())
+}
+
+func encodeMsg(cs []rawCommit) []byte {
+	w := codec.NewWriter()
+	for _, c := range cs {
+		w.WriteEncodable(1, c)
+	}
+	return w.Result()
+}
+
+func resize(b []byte, n int) []byte {
+	if n <= len(b) {
+		return append([]byte{}, b[:n]...)
+	}
+	return append(append([]byte{}, b...), make([]byte, n-len(b))...)
+}
+
+// concrete: the fields of an abstract single commit of a "commits" step
+func concrete(n *node.Node, c *CRow) (id []byte, addr, sig []byte) {
+	hdr, err := n.Chain.DataAccess().GetBlockHeaderByHeight(c.Bh)
+	if err != nil || c.Ref == "other" {
+		hdr = fakeHeader(c.Bh, 777)
+	}
+	chainID := n.ChainID
+	if c.Sig == "bad" {
+		chainID = []byte{8, 8, 8, 8}
+	}
+	// the signature is over the certificate of the block whose id is used (height bh); the height FIELD is c.H
+	sc := certificate.NewSingleCommit(hdr, node.Validator(c.V).Address, chainID, node.Validator(c.Signer).BLS.PrivateKey)
+	id, addr, sig = append([]byte{}, hdr.ID...), append([]byte{}, node.Validator(c.V).Address...), append([]byte{}, sc.CertificateSignature()...)
+	switch c.Len {
+	case "sig0":
+		sig = []byte{}
+	case "sig95":
+		sig = resize(sig, 95)
+	case "sig97":
+		sig = resize(sig, 97)
+	case "id0":
+		id = []byte{}
+	case "id31":
+		id = resize(id, 31)
+	case "id33":
+		id = resize(id, 33)
+	case "addr0":
+		addr = []byte{}
+	case "addr19":
+		addr = resize(addr, 19)
+	case "addr21":
+		addr = resize(addr, 21)
+	}
+	return id, addr, sig
+}
+
+func deliver(n *node.Node, data []byte) (pv interface{}) {
+	defer func() {
+		if e := recover(); e != nil {
+			pv = e
+		}
+	}()
+	n.Ex.VerifSingleCommitValidator(data)
+	return nil
+}
+
+func goodMsg(n *node.Node, v int, heights []uint32) []byte {
+	val := node.Validator(v)
+	cs := []*certificate.SingleCommit{}
+	for _, h := range heights {
+		hdr, err := n.Chain.DataAccess().GetBlockHeaderByHeight(h)
+		if err != nil {
+			continue
+		}
+		cs = append(cs, certificate.NewSingleCommit(hdr, val.Address, n.ChainID, val.BLS.PrivateKey))
+	}
+	return (&consensus.EventPostSingleCommits{SingleCommits: cs}).Encode()
+}
+
+func bftHeights(n *node.Node) (mhpc, cert uint32) {
+	_, mhpc, cert, err := n.Ex.GetBFTHeights(n.Ex.VerifConsensusStore())
+	if err != nil {
+		herr("GetBFTHeights: %v", err)
+	}
+	return mhpc, cert
+}
+
+func activeAt(n *node.Node, cfg *node.Config, h uint32, addr []byte) bool {
+	ps := n.ParamsAt(h)
+	for id := 1; id <= cfg.NVal; id++ {
+		if bytes.Equal(node.Validator(id).Address, addr) && id <= len(ps.W) && ps.W[id-1] > 0 {
+			return true
+		}
+	}
+	return false
+}
+
+func getAggregate(n *node.Node) (ac *blockchain.AggregateCommit, gerr error, pv interface{}) {
+	defer func() {
+		if e := recover(); e != nil {
+			pv = e
+		}
+	}()
+	ac, gerr = n.Ex.GetAggregateCommit()
+	return
+}
+
+// ---------------------------------------------------------------------------------------------- histories
+
+type fed struct {
+	h  uint32
+	id []byte
+}
+
+// histStep executes one step of a history; false = the script cannot be continued
+func histStep(n *node.Node, cfg *node.Config, d *Dump, i int, admitted *[]fed) bool {
+	s := &d.Script[i]
+	rep := map[string]interface{}{"script": d.Script[:i+1], "hist": true}
+	tip := n.Tip().Header.Height
+	switch s.Op {
+	case "commits":
+		raws := []rawCommit{}
+		type conc struct{ id, addr, sig []byte }
+		cc := []conc{}
+		for j := range s.Commits {
+			id, addr, sig := concrete(n, &s.Commits[j])
+			cc = append(cc, conc{id, addr, sig})
+			raws = append(raws, encodeCommit(id, s.Commits[j].H, addr, sig))
+		}
+		if pv := deliver(n, encodeMsg(raws)); pv != nil {
+			viol("panic:singleCommitValidator", fmt.Sprintf("singleCommitValidator panicked on a message of %d single commits: %v", len(raws), pv), rep)
+			return false
+		}
+		mhpcNow, _ := bftHeights(n)
+		count("hist_messages", 1)
+		count(fmt.Sprintf("hist_messages_of_%d", len(raws)), 1)
+		for j := range s.Commits {
+			c := &s.Commits[j]
+			in := false
+			for _, e := range poolEntries(n, c.H, c.H) {
+				if bytes.Equal(e.id, cc[j].id) && bytes.Equal(e.addr, cc[j].addr) && bytes.Equal(e.sig, cc[j].sig) {
+					in = true
+				}
+			}
+			count("hist_commits_fed", 1)
+			count("hist_fed:"+c.Dev, 1)
+			if in {
+				count("hist_commits_admitted", 1)
+				if c.MayEnter {
+					*admitted = append(*admitted, fed{c.H, cc[j].id})
+					if c.H > mhpcNow {
+						count("hist_admitted_above_precommitted", 1)
+					}
+				}
+			}
+			if in && !c.MayEnter {
+				viol("pool-admits-unsound-commit:"+c.Dev, fmt.Sprintf("single commit %d of a message of %d (claimed validator %d, signed by %d, height field %d, block id and certificate of height %d (%s), signature %s, lengths %s) entered the pool",
+					j+1, len(s.Commits), c.V, c.Signer, c.H, c.Bh, c.Ref, c.Sig, c.Len), rep)
+			}
+		}
+	case "certify":
+		mhpc, cert := bftHeights(n)
+		for _, c := range s.Certifiers {
+			v := node.Validator(c)
+			if err := n.Ex.Certify(cert, mhpc, v.Address, v.BLS.PrivateKey); err != nil {
+				count("certify_errors", 1)
+			}
+			if s.Gossip {
+				for _, h := range windowHeights(cert, mhpc) {
+					if pv := deliver(n, goodMsg(n, c, []uint32{h})); pv != nil {
+						viol("panic:singleCommitValidator", fmt.Sprintf("singleCommitValidator panicked: %v", pv), rep)
+						return false
+					}
+				}
+			}
+		}
+		count("hist_certify_steps", 1)
+		// who is in the pool: a commit for the node's CURRENT block at height h only by a validator active at h
+		for _, e := range poolEntries(n, 1, tip+1) {
+			if !bytes.Equal(e.id, ownID(n, e.h)) {
+				continue
+			}
+			if !activeAt(n, cfg, e.h, e.addr) {
+				viol("pool-admits-inactive-validator", fmt.Sprintf("after Certify(%d, %d] by %v the pool holds a single commit for height %d by a validator that is not active at that height", cert, mhpc, s.Certifiers, e.h), rep)
+			}
+		}
+	case "tick":
+		func() {
+			defer func() {
+				if e := recover(); e != nil {
+					viol("panic:broadcastCertificate", fmt.Sprintf("the certificate broadcast tick panicked: %v", e), rep)
+				}
+			}()
+			if err := n.Ex.VerifBroadcastCertificate(); err != nil {
+				count("tick_errors", 1)
+			}
+		}()
+		count("hist_ticks", 1)
+	case "assemble":
+		mhpc, cert := bftHeights(n)
+		entries := poolEntries(n, 1, tip+1)
+		staleAt := map[uint32]bool{}
+		for _, e := range entries {
+			if !bytes.Equal(e.id, ownID(n, e.h)) && e.h > cert && e.h <= mhpc {
+				staleAt[e.h] = true
+			}
+		}
+		scenario := false // a commit that entered the pool is for a block that has been replaced since
+		for _, f := range *admitted {
+			if !bytes.Equal(f.id, ownID(n, f.h)) {
+				scenario = true
+			}
+		}
+		count("hist_assembles", 1)
+		if scenario {
+			count("hist_assembles_after_replacing_a_block_with_pooled_commit", 1)
+		}
+		if len(staleAt) > 0 {
+			count("hist_assembles_with_commit_of_replaced_block_in_window", 1)
+		}
+		ac, gerr, pv := getAggregate(n)
+		if pv != nil {
+			what := fmt.Sprintf("GetAggregateCommit panicked on a pool with history (certified %d, precommitted %d): %v", cert, mhpc, pv)
+			if len(staleAt) > 0 {
+				violExp("get-aggregate-error:"+staleKey, what+" - the pool holds a single commit for a block that was replaced afterwards", rep)
+			} else {
+				viol("get-aggregate-error:history", what, rep)
+			}
+			return true
+		}
+		if gerr != nil {
+			count("get_aggregate_errors", 1)
+			return true
+		}
+		if !ac.Empty() {
+			count("hist_assembles_nonempty", 1)
+		}
+		ok, pv := verifyAC(n, ac)
+		if pv != nil || !ok {
+			what := fmt.Sprintf("the aggregate commit assembled from a pool with history (height %d, bits %x; certified %d, precommitted %d) is rejected by the node's own verification", ac.Height, []byte(ac.AggregationBits), cert, mhpc)
+			if pv != nil {
+				what += fmt.Sprintf(" (panic: %v)", pv)
+			}
+			if staleAt[ac.Height] {
+				violExp("own-aggregate-rejected:"+staleKey, what+": the pool mixes single commits for the current block at that height with one for a block that was replaced after the commit had been admitted", rep)
+			} else {
+				viol("own-aggregate-rejected:history", what, rep)
+			}
+		}
+	}
+	return true
+}
+
+// windowHeights: the heights of (cert, mhpc] commits are produced for: all of them on a short window; on a long chain the
+// top ones (what GetAggregateCommit looks at first), the lowest ones and the neighbourhood of precommitted - 100
+func windowHeights(cert, mhpc uint32) []uint32 {
+	res := []uint32{}
+	for h := cert + 1; h <= mhpc; h++ {
+		if mhpc-cert <= 12 || h <= cert+2 || h+2 >= mhpc || (h+102 >= mhpc && h+98 <= mhpc) {
+			res = append(res, h)
+		}
+	}
+	return res
+}
+
+// ---------------------------------------------------------------------------------------------- replay
+
 func replay(cfg *node.Config, d *Dump) {
 	n, err := node.New(cfg, nil, 0)
 	if err != nil {
-		mu.Lock()
-		out.Errors = append(out.Errors, err.Error())
-		mu.Unlock()
+		herr("%v", err)
 		return
 	}
 	defer n.Close()
+	admitted := []fed{}
 	for i := range d.Script {
 		s := &d.Script[i]
-		if s.Op != "block" {
-			continue
-		}
-		b := n.Build(&s.Cand)
-		if err := n.Ex.VerifProcess(b, "12D3KooWverifpeer"); err != nil || !bytes.Equal(n.Tip().Header.ID, b.Header.ID) {
-			if s.Ac.Kind == "valid" {
-				// the block is valid by the specification and carries a sound aggregate commit
-				viol("rejects-sound-commit", fmt.Sprintf("a valid block carrying a sound aggregate commit (height %d, signers %v) is rejected: %v", s.Ac.H, s.Ac.Signers, err),
-					map[string]interface{}{"script": d.Script[:i+1]})
+		switch s.Op {
+		case "block":
+			b := n.Build(&s.Cand)
+			if err := n.Ex.VerifProcess(b, "12D3KooWverifpeer"); err != nil || !bytes.Equal(n.Tip().Header.ID, b.Header.ID) {
+				if s.Ac.Kind == "valid" {
+					// the block is valid by the specification and carries a sound aggregate commit
+					if soundRejected(n, s.Ac.H, s.Ac.Signers) {
+						viol("rejects-sound-commit", fmt.Sprintf("a valid block carrying a sound aggregate commit (height %d, signers %v) is rejected: %v", s.Ac.H, s.Ac.Signers, err),
+							map[string]interface{}{"script": d.Script[:i+1]})
+					}
+					return
+				}
+				herr("script block not accepted: %v", err)
 				return
 			}
-			mu.Lock()
-			out.Errors = append(out.Errors, fmt.Sprintf("script block not accepted: %v", err))
-			mu.Unlock()
-			return
+		case "delete":
+			err := n.Ex.VerifDeleteBlock(n.Tip(), s.SaveTemp)
+			if (err == nil) != s.Ok {
+				herr("script step %d: deleteBlock returned %v, the specification expects ok=%v", i, err, s.Ok)
+				return
+			}
+			count("hist_deletes", 1)
+		case "commits", "certify", "tick", "assemble":
+			if !histStep(n, cfg, d, i, &admitted) {
+				return
+			}
 		}
 	}
-	state := map[string]interface{}{"script": d.Script, "state": d.State}
+	if d.Hist {
+		count("hist_scripts", 1)
+		return
+	}
+	b := newBuilder(n)
 	// ---- soundness: the verdict table
 	for _, r := range d.Verify {
-		ac := n.AggregateCommit(r.H, r.Kind, r.Signers)
+		ac := b.build(r.H, r.Kind, r.Signers)
 		ok, pv := verifyAC(n, ac)
 		mu.Lock()
 		out.VerifyRows++
 		if r.Expect {
 			out.VerifyTrue++
+		}
+		out.Counts["rows:"+r.Kind]++
+		cl := classify(d, r)
+		switch {
+		case r.Expect && r.Kind == "valid":
+			out.Counts["accept:valid"]++
+			if d.State.NextParams != 0 && r.H == d.State.NextParams-1 {
+				out.Counts["accept:block-preceding-the-change"]++
+			}
+			if len(b.keyList(r.H)) < cfg.NVal {
+				out.Counts["accept:smaller-validator-set"]++
+			}
+			if len(ac.AggregationBits) > 1 {
+				out.Counts["accept:bitmap-of-several-bytes"]++
+			}
+		case r.Expect:
+			out.Counts["accept:"+r.Kind]++
+		case r.Kind == "valid" && r.Ss:
+			out.Counts["reject-with-sound-signers:"+cl]++
+		case r.Kind == "empty" || r.Ss:
+			out.Counts["reject:"+cl]++
 		}
 		mu.Unlock()
 		rep := map[string]interface{}{"script": d.Script, "state": d.State, "row": r}
@@ -148,46 +685,57 @@ func replay(cfg *node.Config, d *Dump) {
 			viol("accepts-unsound-commit:"+classify(d, r), fmt.Sprintf("aggregate commit height=%d signers=%v kind=%s accepted (certified=%d precommitted=%d nextParams=%d)", r.H, r.Signers, r.Kind, d.State.Cert, d.State.Mhpc, d.State.NextParams), rep)
 		}
 		if !ok && r.Expect {
-			viol("rejects-sound-commit", fmt.Sprintf("aggregate commit height=%d signers=%v over the node's own block with sufficient weight is rejected (certified=%d precommitted=%d nextParams=%d)", r.H, r.Signers, d.State.Cert, d.State.Mhpc, d.State.NextParams), rep)
+			if r.Kind != "valid" || soundRejected(n, r.H, r.Signers) {
+				viol("rejects-sound-commit", fmt.Sprintf("aggregate commit height=%d signers=%v kind=%s over the node's own block with sufficient weight is rejected (certified=%d precommitted=%d nextParams=%d)", r.H, r.Signers, r.Kind, d.State.Cert, d.State.Mhpc, d.State.NextParams), rep)
+			}
 		}
 		// bitmap tampers on an acceptable commit: claim another signer set / malformed bitmaps
-		if r.Expect && ok {
-			for _, t := range []string{"flip0", "flip1", "flip2", "extra-byte", "empty-sigbyte", "short"} {
+		if r.Expect && ok && r.Kind == "valid" {
+			nkeys := len(b.keyList(r.H))
+			for _, t := range []string{"flip0", "flip1", "flip2", "flip8", "flip9", "flip10", "flip-last", "extra-byte", "empty-sigbyte", "short", "drop-last-byte"} {
 				tc := &blockchain.AggregateCommit{Height: ac.Height, AggregationBits: append([]byte{}, ac.AggregationBits...), CertificateSignature: append([]byte{}, ac.CertificateSignature...)}
+				mustReject := true
 				switch t {
-				case "flip0", "flip1", "flip2":
-					nkeys := 0
-					for _, w := range n.ParamsAt(r.H).W {
-						if w > 0 {
-							nkeys++
-						}
+				case "flip0", "flip1", "flip2", "flip8", "flip9", "flip10", "flip-last":
+					bit := nkeys - 1
+					if t != "flip-last" {
+						bit, _ = strconv.Atoi(t[4:])
+					} else if nkeys <= 3 {
+						continue
 					}
-					if int(t[4]-'0') >= nkeys {
+					if bit >= nkeys || bit/8 >= len(tc.AggregationBits) {
 						continue // bits beyond the validator list carry no claim
 					}
-					bit := byte(1) << uint(t[4]-'0')
-					tc.AggregationBits[0] ^= bit
-					if tc.AggregationBits[0] == 0 {
+					tc.AggregationBits[bit/8] ^= byte(1) << uint(bit%8)
+					if len(bytes.Trim(tc.AggregationBits, "\x00")) == 0 {
 						continue
 					}
 				case "extra-byte":
 					tc.AggregationBits = append(tc.AggregationBits, 0xff)
+					mustReject = false // the bits beyond the validator list carry no claim
 				case "empty-sigbyte":
 					tc.CertificateSignature[5] ^= 0x40
 				case "short":
 					tc.AggregationBits = []byte{}
-					tc.CertificateSignature = append([]byte{}, ac.CertificateSignature...)
+				case "drop-last-byte":
+					if len(tc.AggregationBits) < 2 {
+						continue
+					}
+					last := tc.AggregationBits[len(tc.AggregationBits)-1]
+					tc.AggregationBits = tc.AggregationBits[:len(tc.AggregationBits)-1]
+					mustReject = last != 0 // with no signer in the dropped byte the shorter bitmap claims the same signers
 				}
 				ok2, pv := verifyAC(n, tc)
 				if pv != nil {
-					viol("panic:verifyAggregateCommit", fmt.Sprintf("verifyAggregateCommit panicked on a tampered commit (%s): %v", t, pv), rep)
+					viol("panic:verifyAggregateCommit", fmt.Sprintf("verifyAggregateCommit panicked on a tampered commit (%s, bits %x for %d validators): %v", t, []byte(tc.AggregationBits), nkeys, pv), rep)
 					continue
 				}
-				if ok2 && t != "extra-byte" {
+				if ok2 && mustReject {
 					viol("accepts-tampered-commit:"+t, fmt.Sprintf("tampered aggregate commit (%s) of height=%d signers=%v accepted", t, r.H, r.Signers), rep)
 				} else if !ok2 {
 					mu.Lock()
 					out.BitTampers++
+					out.Counts["tamper-rejected:"+t]++
 					mu.Unlock()
 				}
 			}
@@ -195,13 +743,17 @@ func replay(cfg *node.Config, d *Dump) {
 	}
 	// ---- pool admission
 	clear := func() { n.Ex.VerifPool().Cleanup(func(uint32) bool { return false }) }
+	keyHeights := map[uint32]bool{1: true} // heights that carry new parameters (set by the block below)
+	for i := range d.Script {
+		if d.Script[i].Op == "block" && d.Script[i].Chg > 0 {
+			keyHeights[d.Script[i].H+1] = true
+		}
+	}
 	for _, r := range d.Singles {
 		clear()
 		hdr, err := n.Chain.DataAccess().GetBlockHeaderByHeight(r.H)
 		if err != nil || r.Ref == "other" {
-			hdr = &blockchain.BlockHeader{Height: r.H, Timestamp: 777, StateRoot: make([]byte, 32), ValidatorsHash: make([]byte, 32),
-				PreviousBlockID: make([]byte, 32), GeneratorAddress: make([]byte, 20), AggregateCommit: &blockchain.AggregateCommit{}}
-			hdr.Init()
+			hdr = fakeHeader(r.H, 777)
 		}
 		chainID := n.ChainID
 		if r.Sig == "bad" {
@@ -210,19 +762,17 @@ func replay(cfg *node.Config, d *Dump) {
 		v := node.Validator(r.V)
 		sc := certificate.NewSingleCommit(hdr, v.Address, chainID, v.BLS.PrivateKey)
 		msg := &consensus.EventPostSingleCommits{SingleCommits: []*certificate.SingleCommit{sc}}
-		func() {
-			defer func() {
-				if e := recover(); e != nil {
-					viol("panic:singleCommitValidator", fmt.Sprintf("singleCommitValidator panicked: %v", e), map[string]interface{}{"script": d.Script, "single": r})
-				}
-			}()
-			n.Ex.VerifSingleCommitValidator(msg.Encode())
-		}()
+		if pv := deliver(n, msg.Encode()); pv != nil {
+			viol("panic:singleCommitValidator", fmt.Sprintf("singleCommitValidator panicked: %v", pv), map[string]interface{}{"script": d.Script, "single": r})
+		}
 		in := n.Ex.VerifPool().Size() > 0
 		mu.Lock()
 		out.Singles++
 		if in {
 			out.SinglesIn++
+			if !keyHeights[r.H] {
+				out.Counts["singles_admitted_at_height_without_new_parameters"]++
+			}
 		}
 		mu.Unlock()
 		if in && !r.MayEnter {
@@ -230,40 +780,47 @@ func replay(cfg *node.Config, d *Dump) {
 		}
 	}
 	// ---- completeness: the node's own aggregate passes the node's own verification
+	assemble := func(rep map[string]interface{}, key, what string) (*blockchain.AggregateCommit, bool) {
+		ac, gerr, pv := getAggregate(n)
+		if pv != nil {
+			viol("get-aggregate-error", fmt.Sprintf("GetAggregateCommit failed: panic: %v", pv), rep)
+			return nil, false
+		}
+		if gerr != nil {
+			// nothing was assembled; the statement is about what IS assembled (a node that never assembles anything leaves
+			// the run vacuous, see the driver)
+			count("get_aggregate_errors", 1)
+			return nil, false
+		}
+		ok, pv := verifyAC(n, ac)
+		if pv != nil {
+			viol("panic:verifyAggregateCommit", fmt.Sprintf("verifyAggregateCommit panicked on the node's own aggregate: %v", pv), rep)
+			return ac, false
+		} else if !ok {
+			viol(key, fmt.Sprintf("the aggregate commit assembled from the pool (%s, height %d, bits %x) is rejected by the node's own verification", what, ac.Height, []byte(ac.AggregationBits)), rep)
+			return ac, false
+		}
+		return ac, true
+	}
 	poolCase := 0
 	for _, r := range d.Pool {
 		clear()
 		for _, c := range r.Certifiers {
 			v := node.Validator(c)
 			if err := n.Ex.Certify(d.State.Cert, d.State.Mhpc, v.Address, v.BLS.PrivateKey); err != nil {
-				viol("certify-error", "Certify failed: "+err.Error(), state)
+				count("certify_errors", 1)
 			}
 			// commits for the other heights of the window arrive through gossip
-			for h := d.State.Cert + 1; h <= d.State.Mhpc; h++ {
-				hdr, err := n.Chain.DataAccess().GetBlockHeaderByHeight(h)
-				if err != nil {
-					continue
-				}
-				sc := certificate.NewSingleCommit(hdr, v.Address, n.ChainID, v.BLS.PrivateKey)
-				msg := &consensus.EventPostSingleCommits{SingleCommits: []*certificate.SingleCommit{sc}}
-				n.Ex.VerifSingleCommitValidator(msg.Encode())
+			for _, h := range windowHeights(d.State.Cert, d.State.Mhpc) {
+				deliver(n, goodMsg(n, c, []uint32{h}))
 			}
 		}
 		// what Certify and the gossip validator let into the pool: a commit for height h only by a validator that is
 		// active (positive BFT weight) in the parameters of height h
-		for h := d.State.Cert + 1; h <= d.State.Mhpc; h++ {
-			ps := n.ParamsAt(h)
-			for _, sc := range n.Ex.VerifPool().Get(h) {
-				active := false
-				for id := 1; id <= cfg.NVal; id++ {
-					if bytes.Equal(node.Validator(id).Address, sc.ValidatorAddress()) && id <= len(ps.W) && ps.W[id-1] > 0 {
-						active = true
-					}
-				}
-				if !active {
-					viol("pool-admits-inactive-validator", fmt.Sprintf("after Certify(%d, %d] by %v the pool holds a single commit for height %d by a validator that is not active at that height", d.State.Cert, d.State.Mhpc, r.Certifiers, h),
-						map[string]interface{}{"script": d.Script, "state": d.State, "pool": r})
-				}
+		for _, e := range poolEntries(n, d.State.Cert+1, d.State.Mhpc) {
+			if !activeAt(n, cfg, e.h, e.addr) {
+				viol("pool-admits-inactive-validator", fmt.Sprintf("after Certify(%d, %d] by %v the pool holds a single commit for height %d by a validator that is not active at that height", d.State.Cert, d.State.Mhpc, r.Certifiers, e.h),
+					map[string]interface{}{"script": d.Script, "state": d.State, "pool": r})
 			}
 		}
 		regossip := poolCase%2 == 1
@@ -279,39 +836,157 @@ func replay(cfg *node.Config, d *Dump) {
 			for _, c := range r.Certifiers {
 				v := node.Validator(c)
 				if err := n.Ex.Certify(d.State.Cert, d.State.Mhpc, v.Address, v.BLS.PrivateKey); err != nil {
-					viol("certify-error", "Certify failed: "+err.Error(), state)
+					count("certify_errors", 1)
 				}
 			}
 		}
 		poolCase++
-		var ac *blockchain.AggregateCommit
-		var gerr error
-		func() {
-			defer func() {
-				if e := recover(); e != nil {
-					gerr = fmt.Errorf("panic: %v", e)
-				}
-			}()
-			ac, gerr = n.Ex.GetAggregateCommit()
-		}()
 		rep := map[string]interface{}{"script": d.Script, "state": d.State, "pool": r, "regossip": regossip}
 		mu.Lock()
 		out.PoolCases++
 		mu.Unlock()
-		if gerr != nil {
-			viol("get-aggregate-error", "GetAggregateCommit failed: "+gerr.Error(), rep)
-			continue
-		}
-		if !ac.Empty() {
+		ac, _ := assemble(rep, "own-aggregate-rejected", fmt.Sprintf("certifiers %v", r.Certifiers))
+		if ac != nil && !ac.Empty() {
 			mu.Lock()
 			out.PoolNonEmpty++
+			if len(ac.AggregationBits) > 1 {
+				out.Counts["own_aggregates_with_bitmap_of_several_bytes"]++
+			}
 			mu.Unlock()
 		}
-		ok, pv := verifyAC(n, ac)
-		if pv != nil {
-			viol("panic:verifyAggregateCommit", fmt.Sprintf("verifyAggregateCommit panicked on the node's own aggregate: %v", pv), rep)
-		} else if !ok {
-			viol("own-aggregate-rejected", fmt.Sprintf("the aggregate commit assembled from the pool (certifiers %v, height %d, bits %x) is rejected by the node's own verification", r.Certifiers, ac.Height, ac.AggregationBits), rep)
+	}
+	// ---- the same with a different certifier set at every height of the window.  On a chain of more than 100 blocks
+	// the commits take the real door (the gossip validator admits every height in [precommitted - 100, precommitted]);
+	// in the first 100 heights that door is closed for heights without new parameters, so they are put into the pool
+	// directly.
+	for _, r := range d.MPool {
+		clear()
+		door := "add"
+		if d.State.Mhpc > 100 {
+			door = "gossip"
+		}
+		want := 0
+		for _, s := range r.Sets {
+			hdr, err := n.Chain.DataAccess().GetBlockHeaderByHeight(s.H)
+			if err != nil {
+				continue
+			}
+			for _, c := range s.Certifiers {
+				v := node.Validator(c)
+				want++
+				if door == "gossip" {
+					deliver(n, goodMsg(n, c, []uint32{s.H}))
+				} else {
+					n.Ex.VerifPool().Add(certificate.NewSingleCommit(hdr, v.Address, n.ChainID, v.BLS.PrivateKey))
+				}
+			}
+		}
+		got := n.Ex.VerifPool().Size()
+		rep := map[string]interface{}{"script": d.Script, "state": d.State, "mpool": r}
+		count("mpool_cases", 1)
+		count("mpool_cases_by_"+door, 1)
+		if got == want {
+			count("mpool_cases_all_commits_in_pool", 1)
+		}
+		ac, ok := assemble(rep, "own-aggregate-rejected:per-height-sets", fmt.Sprintf("a certifier set per height: %v", r.Sets))
+		if ac != nil && ok && !ac.Empty() {
+			count("mpool_nonempty", 1)
+			if len(r.Sets) > 0 && ac.Height < r.Sets[0].H {
+				count("mpool_aggregate_below_the_top_height", 1)
+			}
+		}
+	}
+	// ---- concurrent deliveries: the gossip validator runs on p2p goroutines (check, then add) next to the generator's
+	// Certify.  Every round releases, at the same instant, several deliveries of the SAME message, deliveries of different
+	// messages and Certify calls of validators whose commits are also in the messages; afterwards the node's own aggregate
+	// must pass its own verification whatever the interleaving was.
+	for round := 0; round < d.Conc; round++ {
+		clear()
+		mhpc, cert := bftHeights(n)
+		if mhpc <= cert {
+			break
+		}
+		heights := windowHeights(cert, mhpc)
+		// one message with everybody's commits, and one per validator
+		all := []*certificate.SingleCommit{}
+		per := [][]byte{}
+		for v := 1; v <= cfg.NVal; v++ {
+			val := node.Validator(v)
+			for _, h := range heights {
+				if hdr, err := n.Chain.DataAccess().GetBlockHeaderByHeight(h); err == nil && activeAt(n, cfg, h, val.Address) {
+					all = append(all, certificate.NewSingleCommit(hdr, val.Address, n.ChainID, val.BLS.PrivateKey))
+				}
+			}
+			per = append(per, goodMsg(n, v, heights))
+		}
+		allMsg := (&consensus.EventPostSingleCommits{SingleCommits: all}).Encode()
+		start := make(chan struct{})
+		var wg sync.WaitGroup
+		var pmu sync.Mutex
+		var panics []interface{}
+		run := func(f func()) {
+			wg.Add(1)
+			go func() {
+				defer wg.Done()
+				defer func() {
+					if e := recover(); e != nil {
+						pmu.Lock()
+						panics = append(panics, e)
+						pmu.Unlock()
+					}
+				}()
+				<-start
+				f()
+			}()
+		}
+		for k := 0; k < 3; k++ {
+			run(func() { n.Ex.VerifSingleCommitValidator(allMsg) })
+		}
+		for v := 1; v <= cfg.NVal && v <= 6; v++ {
+			m := per[v-1]
+			run(func() { n.Ex.VerifSingleCommitValidator(m) })
+			run(func() { n.Ex.VerifSingleCommitValidator(m) })
+		}
+		for v := 1; v <= 2 && v <= cfg.NVal; v++ {
+			val := node.Validator(v)
+			for k := 0; k < 2; k++ {
+				run(func() { n.Ex.Certify(cert, mhpc, val.Address, val.BLS.PrivateKey) }) //nolint
+			}
+		}
+		close(start)
+		done := make(chan struct{})
+		go func() { wg.Wait(); close(done) }()
+		select {
+		case <-done:
+		case <-time.After(300 * time.Second):
+			herr("concurrent deliveries did not return within 300 s (certified %d, precommitted %d)", cert, mhpc)
+			return
+		}
+		rep := map[string]interface{}{"script": d.Script, "state": d.State, "conc": 20}
+		if len(panics) > 0 {
+			viol("panic:concurrent-deliveries", fmt.Sprintf("a concurrent delivery of single commits / Certify panicked: %v", panics[0]), rep)
+			continue
+		}
+		count("conc_rounds", 1)
+		seen := map[string]int{}
+		gossiped := false
+		for _, e := range poolEntries(n, cert+1, mhpc) {
+			seen[fmt.Sprintf("%x/%x", e.id, e.addr)]++
+			if !bytes.Equal(e.addr, node.Validator(1).Address) && !bytes.Equal(e.addr, node.Validator(2).Address) {
+				gossiped = true
+			}
+		}
+		if gossiped {
+			count("conc_rounds_with_commits_admitted_from_gossip", 1)
+		}
+		for _, c := range seen {
+			if c > 1 {
+				count("conc_duplicates_in_pool", 1)
+			}
+		}
+		ac, ok := assemble(rep, "own-aggregate-rejected:concurrent", "filled by concurrent deliveries of the same and of different commits and by Certify")
+		if ac != nil && ok && !ac.Empty() {
+			count("conc_nonempty", 1)
 		}
 	}
 }
@@ -330,10 +1005,25 @@ func classify(d *Dump, r VRow) string {
 	return "signers"
 }
 
+// selfTest: the hand encoding of gossip messages equals the generated codec's on a well-formed commit
+func selfTest() {
+	v := node.Validator(1)
+	hdr := fakeHeader(3, 1)
+	sc := certificate.NewSingleCommit(hdr, v.Address, []byte{4, 0, 0, 7}, v.BLS.PrivateKey)
+	a := (&consensus.EventPostSingleCommits{SingleCommits: []*certificate.SingleCommit{sc, sc}}).Encode()
+	r := encodeCommit(sc.BlockID(), sc.Height(), sc.ValidatorAddress(), sc.CertificateSignature())
+	if !bytes.Equal(a, encodeMsg([]rawCommit{r, r})) {
+		herr("the hand encoding of postSingleCommits differs from the generated codec's")
+	}
+}
+
 func main() {
 	if len(os.Args) < 4 {
 		fmt.Fprintln(os.Stderr, "usage: c06 dumps.ndjson config.json out.json")
 		os.Exit(2)
+	}
+	if s, err := strconv.ParseInt(os.Getenv("VERIF_SEED"), 10, 64); err == nil {
+		seed = s
 	}
 	cfg := &node.Config{}
 	cb, err := os.ReadFile(os.Args[2])
@@ -357,6 +1047,7 @@ func main() {
 		}
 	}
 	out.Dumps = len(dumps)
+	selfTest()
 	var wg sync.WaitGroup
 	sem := make(chan struct{}, 14)
 	for i, d := range dumps {
@@ -368,9 +1059,7 @@ func main() {
 			defer func() { <-sem }()
 			defer func() {
 				if e := recover(); e != nil {
-					mu.Lock()
-					out.Errors = append(out.Errors, fmt.Sprintf("dump %d: harness panic: %v", i, e))
-					mu.Unlock()
+					herr("dump %d: harness panic: %v", i, e)
 				}
 			}()
 			replay(cfg, d)
